@@ -326,6 +326,7 @@ func (c *Core) ngSetup(p *ngap.PDU) {
 		s, err := ngap.DecRANNodeName(ie.Val)
 		if err != nil {
 			c.viol("ngap.ie-value", "%v", err)
+			c.viol("cfg.gnb_name", "RANNodeName cannot be decoded (%v), configured %q", err, cfg.GnbName)
 		} else if s != cfg.GnbName {
 			c.viol("cfg.gnb_name", "RANNodeName %q, configured %q", s, cfg.GnbName)
 		}
@@ -1264,6 +1265,12 @@ func (c *Core) sessionSetup(ue *UE) {
 	}
 	if ue.P.SetupOpt&1 != 0 {
 		ies = append(ies, ngap.IE{ngap.IDRANPagingPriority, ngap.Ignore, must(ngap.EncInt1to256(5, false))})
+	}
+	if ue.P.SetupOpt&4 != 0 {
+		// the optional top-level NAS-PDU of the message (TS 38.413 9.2.1.1): a 5GMM message for the UE
+		// that rides along; the accept stays in the list item
+		ind := byte(0x01)
+		ies = append(ies, ngap.IE{ngap.IDNASPDU, ngap.Reject, ngap.EncOctetString(c.protectDL(ue, 2, nas.ConfigurationUpdateCommand(&ind, nil)))})
 	}
 	ies = append(ies, ngap.IE{ngap.IDPDUSessionResourceSetupListSUReq, ngap.Reject, must(ngap.EncSetupItemList([]ngap.SetupItem{item}))})
 	if ue.P.SetupOpt&2 != 0 {
